@@ -157,6 +157,16 @@ impl World {
                 self.op_commit(i, None)?;
                 self.after_step(&[i])
             }
+            Op::FaultyCommit { r, k, info } => {
+                let i = self.rix(*r);
+                self.op_faulty_commit(i, *k, info_map(info))?;
+                self.after_step(&[i])
+            }
+            Op::Churn { r, n, commit_each } => {
+                let i = self.rix(*r);
+                self.op_churn(i, *n, *commit_each)?;
+                self.after_step(&[i])
+            }
             Op::LowLevel { r, kind, id, content } => {
                 let i = self.rix(*r);
                 self.op_lowlevel(i, *kind, *id, &content.to_value())?;
@@ -283,6 +293,85 @@ impl World {
             if k1 != k2 {
                 return viol("C04", "submitting the same document twice wrote to storage".into());
             }
+        }
+        Ok(())
+    }
+
+    /// commit with an injected write failure; afterwards the replica must be as usable as before
+    pub fn op_faulty_commit(&mut self, i: usize, k: u8, info: Option<Map<String, Value>>) -> R<()> {
+        let staged = guard("has_staging", || self.reps[i].m.has_staging())?;
+        let pre = obs(&self.reps[i].m)?;
+        let w0 = self.reps[i].store.with(|s| {
+            let w0 = s.writes;
+            s.fail_at.insert(w0 + k as usize);
+            w0
+        });
+        let res = guard("commit", || self.reps[i].m.commit(info))?;
+        let hit = self.reps[i].store.with(|s| {
+            let hit = s.writes > w0 + k as usize;
+            s.fail_at.clear();
+            hit
+        });
+        self.log.push(format!("r{} commit with write #{} failing (reached: {}) -> {:?}", i, k, hit, res.as_ref().map(|x| x.is_some()).map_err(|e| e.to_string())));
+        if !hit {
+            if let Ok(Some(_)) = res {
+                self.record_heads(i)?;
+                self.set_quiescent(i)?;
+            }
+            return Ok(());
+        }
+        self.bump("commits_with_injected_write_failure");
+        if res.is_ok() {
+            // reported success although a write failed: C09's business (checked there); keep bookkeeping sane
+            self.set_quiescent(i)?;
+            return Ok(());
+        }
+        if self.is("C15") {
+            if staged && !guard("has_staging", || self.reps[i].m.has_staging())? {
+                return viol("C15", "a commit failed on a storage write error and the staged changes are no longer reported as staged (has_staging() false): they can neither be exported nor discarded, and reload would drop them silently".into());
+            }
+            let st = guard("stage", || self.reps[i].m.stage())?.unwrap_or(None);
+            if staged && st.is_none() {
+                return viol("C15", "a commit failed on a storage write error and stage() exports nothing although changes were staged".into());
+            }
+            self.bump("c15_failed_commits_checked");
+        }
+        if self.is("C12") {
+            let post = obs(&self.reps[i].m)?;
+            if post.doc != pre.doc {
+                return viol("C12", format!("a failed commit changed the visible document:\n before {}\n after  {}", pre.doc, post.doc));
+            }
+        }
+        Ok(())
+    }
+
+    /// n successive updates that only change one verbatim field of the root object; the last one goes
+    /// through the full update oracle
+    pub fn op_churn(&mut self, i: usize, n: u8, commit_each: bool) -> R<()> {
+        let base = match read_doc(&self.reps[i].m)? {
+            Ok(d) => d,
+            Err(_) => Value::from(Map::new()),
+        };
+        let mut doc = base.as_object().cloned().unwrap_or_default();
+        self.log.push(format!("r{} churn n={} commit_each={}", i, n, commit_each));
+        for k in 0..n {
+            doc.insert("n".into(), Value::from(format!("churn-{}", k)));
+            if k + 1 == n {
+                self.submit(i, Value::from(doc.clone()), None)?;
+            } else {
+                let d = doc.clone();
+                let r = guard("update", || self.reps[i].m.update(d))?;
+                if r.is_err() {
+                    return Ok(());
+                }
+            }
+            if commit_each {
+                self.op_commit(i, None)?;
+            }
+        }
+        self.bump("churns");
+        if n >= 99 {
+            self.bump("churns_past_index_100");
         }
         Ok(())
     }
